@@ -6,6 +6,7 @@ import ComposeVerif.Lemmas.C02StagePaths
 import ComposeVerif.Lemmas.C02StageValidate
 import ComposeVerif.Lemmas.C02StageCanonical
 import ComposeVerif.Lemmas.C02StageCompose
+import ComposeVerif.Lemmas.C02StageInterpWF
 /-!
 # C02 — `stage_perm`: the loader stages do not depend on the order in which Go ranges over mappings
 
@@ -213,6 +214,39 @@ theorem document_pipeline_perm (c : CV.Interp.Cfg) (tbl : List (List String × S
   · exact respects_validate
   · exact respects_defaults tbl _
   · exact respects_paths t cfg _
+
+/-- **`Interpolate` keeps the keys of every mapping distinct** (it discharges `WFAlong` for the stage after it) -/
+theorem interpolate_preserves_wf (c : CV.Interp.Cfg) (p : TPath) {v r : Val} (wv : CV.Deep.WF v)
+    (h : CV.Interp.interp c p v = .ok r) : CV.Deep.WF r := interp_wf c p wv h
+
+/-- `Interpolate` then `Validate`, composed **without** any hypothesis on the intermediate tree -/
+theorem interpolate_validate_perm (c : CV.Interp.Cfg) (p : TPath) {v w : Val} (h : CV.Deep.Eqv v w)
+    (wv : CV.Deep.WF v) (ww : CV.Deep.WF w) :
+    ORel CV.Deep.Eqv (runStages [interpStage c p, validateStage] v) (runStages [interpStage c p, validateStage] w) := by
+  have along : ∀ u, CV.Deep.WF u → WFAlong [interpStage c p, validateStage] u := by
+    intro u wu
+    refine ⟨wu, fun x hx => ⟨?_, fun y hy => ?_⟩⟩
+    · unfold interpStage at hx
+      cases hi : CV.Interp.interp c p u with
+      | ok z => rw [hi] at hx; simp only [optI, Option.some.injEq] at hx; subst hx; exact interp_wf c p wu hi
+      | err e => rw [hi] at hx; cases hx
+      | panic e => rw [hi] at hx; cases hx
+    · unfold interpStage at hx
+      unfold validateStage at hy
+      cases hi : CV.Interp.interp c p u with
+      | ok z =>
+        rw [hi] at hx; simp only [optI, Option.some.injEq] at hx; subst hx
+        split at hy
+        · cases hy; exact interp_wf c p wu hi
+        · cases hy
+      | err e => rw [hi] at hx; cases hx
+      | panic e => rw [hi] at hx; cases hx
+  apply runStages_respects _ _ v w h (along v wv) (along w ww)
+  intro f hf
+  simp only [List.mem_cons, List.not_mem_nil, or_false] at hf
+  rcases hf with rfl | rfl
+  · exact respects_interp c _
+  · exact respects_validate
 
 /-- the walker loop for recursive calls that respect the equivalence (the core of the whole-tree theorems) -/
 theorem walker_loop_deep (g g' : String → Val → Option Val) {a b : KVs} (hm : CV.Deep.MEqv a b)
